@@ -381,7 +381,6 @@ def applyFn : Nat → Pos → Value → List Value → SS → R Value
         let variadic := ps.rest.isSome || ps.extraOk || ps.keys.isSome || ps.named.isSome
         if args.length < minar || (!variadic && args.length > n) then .err rtErr cur s else
         let extra := args.drop n
-        if (ps.keys.isSome || ps.named.isSome) && extra.length % 2 == 1 then .err rtErr cur s else
         let kst := mkStruct s.st.heap extra
         let binds : List (Expr × Value) :=
           (ps.pos.zipIdx.map (fun (p, i) => (p, args.getD i .nil)))
